@@ -116,6 +116,26 @@ pub fn run(tier: Tier) -> ! {
             }
         }
     });
+    // every Unicode scalar value (NUL included) alone, after an ordinary character, and after each delimiter
+    {
+        let all: Vec<char> = (0u32..=0x10FFFF).filter_map(char::from_u32).collect();
+        chk.set("totality_all_scalar_values", json!(all.len()));
+        all.par_iter().for_each(|&c| {
+            let mut xs = vec![c.to_string(), format!("a{c}")];
+            if tier == Tier::Thorough || (c as u32) < 0x3100 || (c as u32) % 5 == 0 {
+                xs.extend([format!("a/{c}"), format!("a\\{c}"), format!("a-{c}"), format!("a {c}"), format!("{c}|a")]);
+            }
+            for x in xs {
+                for kind in 0..3 {
+                    chk.eval(3);
+                    chk.nontrivial(1);
+                    for (k, what) in totality_case(&w, kind, &x) {
+                        chk.violation(k.clone(), what, json!({"mode": "totality", "kind": kind, "x": x, "sig": k}));
+                    }
+                }
+            }
+        });
+    }
     chk.set("totality_strings", json!(strings));
     chk.set("totality_alphabet", json!("a あ space / \\ - | NUL"));
     chk.set("totality_max_len", json!(maxlen));
